@@ -1174,6 +1174,7 @@ fn merge(left_struct_array: &StructArray, right_struct_array: &StructArray) -> S
                         if left_list.data_type() == right_list.data_type() {
                             fields.push(left_field.as_ref().clone());
                             columns.push(left_column.clone());
+                            continue;
                         }
                         // If we have two List<Struct> and they have different sets of fields then
                         // we can merge them if the offsets arrays are the same.  Otherwise, we
@@ -1922,6 +1923,35 @@ mod tests {
         assert_eq!(width_values.value(0), 300);
         assert_eq!(width_values.value(1), 200);
         assert!(width_values.is_null(2)); // width is null when right struct was null
+    }
+
+    #[test]
+    fn test_merge_same_list_struct_once() {
+        let item = Arc::new(Field::new(
+            "item",
+            DataType::Struct(Fields::from(vec![Field::new("x", DataType::Int32, true)])),
+            true,
+        ));
+        let values = StructArray::new(
+            Fields::from(vec![Field::new("x", DataType::Int32, true)]),
+            vec![Arc::new(Int32Array::from(vec![1, 2])) as ArrayRef],
+            None,
+        );
+        let list = ListArray::new(
+            item.clone(),
+            OffsetBuffer::from_lengths([2]),
+            Arc::new(values),
+            None,
+        );
+        let schema = Arc::new(Schema::new(vec![Field::new(
+            "l",
+            DataType::List(item),
+            true,
+        )]));
+        let batch = RecordBatch::try_new(schema.clone(), vec![Arc::new(list)]).unwrap();
+        let merged = batch.merge(&batch).unwrap();
+        assert_eq!(merged.schema(), schema);
+        assert_eq!(merged, batch);
     }
 
     #[test]
